@@ -105,7 +105,7 @@ class _Named:
         return len(self._a)
 
 
-FORDERS = [0.5, 1.5, 2.5]     # fractional orders of the FractionalOrder (99) bonds, by bond number
+FORDERS = [0.5, 1.7324, 4.0 / 3.0]     # fractional orders of the FractionalOrder (99) bonds, by bond number
 
 
 def _bt(bts, k, plain):
